@@ -27,6 +27,21 @@ theorem snapshot (ctor : Nat → Bool) (s : Sys) (t : Nat) (s' : Sys) (o : Obs) 
   · simp only [Option.some.injEq, Prod.mk.injEq] at hs
     rw [← hs.1]; simp
 
+/-- C03.foreign_exit_refused: a task calling `__exit__` on a block object that another task entered is refused
+(`ContextVar.reset` rejects a token from another context) and changes nobody's context – not its own, not the
+owner's; the owner can still leave the block normally afterwards. -/
+theorem foreign_exit_refused (ctor : Nat → Bool) (s : Sys) (t b : Nat) (s' : Sys) (o : Obs)
+    (hs : step ctor s (.foreignExit t b) = some (s', o)) : s' = s ∧ o = .refused := by
+  simp only [step] at hs
+  cases ht : s[t]? with
+  | none => simp [ht] at hs
+  | some tk =>
+    simp only [ht] at hs
+    split at hs
+    · simp at hs
+    · simp only [Option.some.injEq, Prod.mk.injEq] at hs
+      exact ⟨hs.1.symm, hs.2.symm⟩
+
 /-- C03.view: at every point of every interleaving, a lookup by task `t` is answered from the frames visible
 where `t` was started followed by the blocks `t` entered itself – nothing else. -/
 theorem view (ctor : Nat → Bool) (ls : List Label) (t ty : Nat) (d : Bool) (tk : Task)
